@@ -248,3 +248,135 @@ def euclid_self_test():
     if abs(area - edge ** 2) > 1e-10:
         problems.append(f"bcc square area {area} vs {edge ** 2}")
     return problems
+
+
+# ----------------------------------------------------------------------------------------------------------------------
+# Voronoi faces on S^3 (double cover of the rotations)
+# ----------------------------------------------------------------------------------------------------------------------
+
+def _orth_complement(v):
+    """Orthonormal basis (4x3) of the 3-space orthogonal to v in R^4."""
+    v = v / np.linalg.norm(v)
+    M = np.eye(4) - np.outer(v, v)
+    u, s, vt = np.linalg.svd(M)
+    return u[:, :3]
+
+
+def s3_face(Q, i, j, big=1e3):
+    """
+    Two-dimensional face shared by the nearest-neighbour regions of Q[i] and Q[j] on the unit 3-sphere (Q: all points,
+    here the 2N double cover). Returns (margin, area, n_vertices, status):
+      margin: largest t such that some unit direction y of the bisector hyperplane has (q_i-q_k).y/|q_i-q_k| >= t for all k
+              (LP, HiGHS); the face exists iff margin > 0;
+      area:   spherical area of the face (gnomonic chart at the LP centre, half-plane clipping, atan2 triangle areas).
+    """
+    from scipy.optimize import linprog
+    Q = np.asarray(Q, dtype=float)
+    E = _orth_complement(Q[i] - Q[j])
+    others = np.array([k for k in range(len(Q)) if k != i and k != j])
+    G = Q[i][None, :] - Q[others]
+    G /= np.linalg.norm(G, axis=1)[:, None]
+    g = G @ E                                             # (M,3) constraints g.y >= 0
+    # maximise t subject to g.y >= t, |y_c| <= 1
+    c = np.array([0, 0, 0, -1.0])
+    A = np.hstack([-g, np.ones((len(g), 1))])
+    res = linprog(c, A_ub=A, b_ub=np.zeros(len(g)), bounds=[(-1, 1)] * 3 + [(None, 1)], method="highs",
+                  options={"primal_feasibility_tolerance": 1e-10, "dual_feasibility_tolerance": 1e-10})
+    if res.status != 0:
+        return 0.0, 0.0, 0, "lp_failed"
+    y = res.x[:3]
+    ny = np.linalg.norm(y)
+    if ny < 1e-12:
+        return 0.0, 0.0, 0, "ok"
+    cvec = y / ny
+    margin = float((g @ cvec).min())
+    if margin <= 0:
+        return margin, 0.0, 0, "ok"
+    area, nv, bounded = _chart_area(g, cvec, big)
+    if bounded:
+        return margin, area, nv, "ok"
+    # the face does not fit into the open hemisphere around the LP centre (tiny grids): cut it into the eight octants of
+    # an orthonormal frame; each octant lies within 54.8 degrees of its centre, so every piece is bounded in its own chart
+    total, nv_total = 0.0, 0
+    for sx in (-1.0, 1.0):
+        for sy in (-1.0, 1.0):
+            for sz in (-1.0, 1.0):
+                signs = np.array([sx, sy, sz])
+                g_oct = np.vstack([g, np.diag(signs)])
+                a, nv, ok = _chart_area(g_oct, signs / np.sqrt(3), big)
+                if not ok:
+                    return margin, np.nan, 0, "unbounded_in_chart"
+                total += a
+                nv_total += nv
+    return margin, total, nv_total, "ok"
+
+
+def _chart_area(g, centre, big):
+    """Area of the spherical convex polygon {y on S^2 : g.y >= 0} seen in the gnomonic chart at `centre` (only the part
+    inside the open hemisphere around centre is representable; returns bounded=False if the polygon reaches the chart's
+    bounding square)."""
+    e = np.eye(3)[np.argmin(np.abs(centre))]
+    e1 = e - centre * (e @ centre)
+    e1 /= np.linalg.norm(e1)
+    e2 = np.cross(centre, e1)
+    normals = np.stack([g @ e1, g @ e2], axis=1)
+    offsets = g @ centre
+    order = np.argsort(offsets / np.maximum(np.linalg.norm(normals, axis=1), 1e-300))
+    poly = np.array([[-big, -big], [big, -big], [big, big], [-big, big]])
+    poly = clip_polygon_halfplanes(poly, normals[order], offsets[order])
+    if len(poly) < 3:
+        return 0.0, 0, True
+    if np.abs(poly).max() >= big * (1 - 1e-9):
+        return np.nan, len(poly), False
+    V = centre[None, :] + poly[:, :1] * e1 + poly[:, 1:] * e2
+    V /= np.linalg.norm(V, axis=1)[:, None]
+    # fan from the first vertex (the polygon is convex)
+    area = float(tri_solid_angle(V[0][None, :], V[1:-1], V[2:]).sum())
+    return area, len(poly), True
+
+
+def s3_candidate_pairs(Q):
+    """Edges of the convex hull of Q in R^4: a superset of the Delaunay edges of points on the sphere (triangulating
+    degenerate facets can only add edges)."""
+    from scipy.spatial import ConvexHull
+    hull = ConvexHull(Q, qhull_options="Qt")
+    pairs = set()
+    for s in hull.simplices:
+        for a in range(4):
+            for b in range(a + 1, 4):
+                i, j = int(s[a]), int(s[b])
+                pairs.add((min(i, j), max(i, j)))
+    return pairs
+
+
+def s3_self_test():
+    problems = []
+    # 16-cell: 8 points +-e_k; regions are the 8 cubical cells of the tesseract projected; every non-antipodal pair shares
+    # a square face whose spherical area is (total area of the cube's boundary on S^3)/...: each region is 2 pi^2 / 8,
+    # bounded by 6 congruent faces; a face is the gnomonic image of a unit-cube face seen from distance 1/2... closed form:
+    Q = np.vstack([np.eye(4), -np.eye(4)])
+    m, a, nv, st = s3_face(Q, 0, 1)
+    # face between e0 and e1: points with x0 = x1 >= |x2|, |x3| on S^3: a spherical square; its area by direct integration
+    # equals that of the square pyramid base seen from the centre: 4 * atan2 formula below
+    v = np.array([[1, 1, 1, 1], [1, 1, 1, -1], [1, 1, -1, -1], [1, 1, -1, 1]], dtype=float)
+    v /= np.linalg.norm(v, axis=1)[:, None]
+    E = _orth_complement(Q[0] - Q[1])
+    w = v @ E
+    c = np.array([1, 1, 0, 0]) / np.sqrt(2) @ E
+    want = float(tri_solid_angle(c[None, :], w, np.roll(w, -1, axis=0)).sum())
+    if st != "ok" or nv != 4 or abs(a - want) > 1e-12 or m <= 0:
+        problems.append(f"16-cell face: area {a} vs {want}, {nv} vertices, status {st}")
+    m, a, nv, st = s3_face(Q, 0, 4)  # antipodes share nothing
+    if m > 1e-12:
+        problems.append(f"antipodal pair has margin {m}")
+    # tesseract vertices (16 points): regions are the 16 cells of the 16-cell; neighbours differ in exactly one sign
+    T = np.array([[a, b, c2, d] for a in (-1, 1) for b in (-1, 1) for c2 in (-1, 1) for d in (-1, 1)], dtype=float) / 2
+    m1, a1, nv1, _ = s3_face(T, 15, 14)     # differ in one coordinate -> triangular face
+    m2, a2, nv2, _ = s3_face(T, 15, 12)     # differ in two coordinates -> only an edge in common
+    if m1 <= 1e-3 or m2 > 1e-12 or abs(a1 - PI / 2) > 1e-12:
+        problems.append(f"tesseract: neighbour face {nv1} vertices margin {m1}; edge contact margin {m2}")
+    # the four faces of one region tile its boundary: region = regular spherical tetrahedron with vertices +-e_k pattern
+    want = float(tri_solid_angle(*[(np.eye(4)[k] @ _orth_complement(T[15] - T[14]))[None, :] for k in (0, 1, 2)])[0])
+    if abs(a1 - want) > 1e-12:
+        problems.append(f"tesseract face area {a1} vs {want}")
+    return problems
